@@ -114,6 +114,7 @@ pub fn state_key(sys: &System, parts: &KeyParts, monitor_hash: u64) -> u128 {
                     Some(w) => {
                         1u8.hash(h);
                         w.id.as_num().hash(h);
+                        w.stopping.hash(h);
                         w.to_worker.len().hash(h);
                         for f in &w.to_worker {
                             f.as_ref().hash(h);
